@@ -54,25 +54,39 @@ def qconfig_pairs(spec):
   return {k: [list(p) for p in v] for k, v in qc.items()}
 
 
-def adjusted_limit(limit_pairs):
-  """'default replaces missing values' for the per-class entries."""
-  keys = [k for k, _ in limit_pairs]
-  lim = {k: (list(v) if isinstance(v, list) else v) for k, v in limit_pairs}
-  default = lim.get("default", None)
+ROLES_PLAIN = ["kernel", "bias", "activation"]            # [kernel, bias, activation]
+ROLES_RNN = ["kernel", "bias", "recurrent", "activation"]   # recurrent layers
+
+
+def default_by_role(default):
+  """'default' is one number for every role, or a list with the documented
+  shape of a limit list: [kernel, bias, activation] or
+  [kernel, bias, recurrent, activation].  Returns role -> entry."""
   if default is None:
     default = 8
-  dl = list(default) if isinstance(default, list) else [default] * 3
+  if not isinstance(default, list):
+    return {r: default for r in ROLES_RNN}
+  if len(default) == 4:
+    return dict(zip(ROLES_RNN, default))
+  if len(default) == 3:
+    return dict(zip(ROLES_PLAIN, default))      # no recurrent default
+  raise ValueError("default must be a number or a list of 3 or 4 entries")
+
+
+def adjusted_limit(limit_pairs):
+  """'default replaces missing values': a class limit list that is shorter than
+  its documented shape is completed role by role from 'default' (regular-
+  expression keys are not completed, they are always written in full)."""
+  keys = [k for k, _ in limit_pairs]
+  lim = {k: (list(v) if isinstance(v, list) else v) for k, v in limit_pairs}
+  by_role = default_by_role(lim.get("default", None))
   for name in keys:
     if name not in WEIGHT_CLASSES:
       continue
-    cur = lim[name]
-    if name in RNN_CLASSES:
-      if len(cur) < 4:
-        # needs a 4-entry default: the generator never produces this
-        cur = cur + dl[len(cur):]
-    elif len(cur) < 3:
-      # [weight, bias, activation]; activation is the LAST default entry
-      cur = cur + dl[len(cur):2] + dl[-1:]
+    roles = ROLES_RNN if name in RNN_CLASSES else ROLES_PLAIN
+    cur = list(lim[name])
+    for role in roles[len(cur):]:
+      cur.append(by_role[role])     # KeyError: recurrent layer + 3-entry default
     lim[name] = cur
   return keys, lim
 
